@@ -18,8 +18,8 @@ HARNESSES = [
     {"fn": "h_json_clean", "cases": ["good", "good/E", "good/H", "good/s", "trunc", "trunc/E", "cut/E", "junk", "two", "two/E", "good/E:leftover"],
      "quick_cases": ["good", "good/H", "trunc/E", "cut/E", "two/E", "good/E:leftover"], "timeout": {"quick": 90, "thorough": 300}},
     {"fn": "h_long_name", "cases": ["255", "241"], "timeout": {"quick": 90, "thorough": 300}},
-    {"fn": "h_file_clean", "cases": ["good", "good/E", "good/H", "good:hex/E", "trunc", "trunc/E", "cut/E", "junk"],
-     "quick_cases": ["good", "good:hex/E", "trunc/E", "cut/E", "junk"], "timeout": {"quick": 90, "thorough": 300}},
+    {"fn": "h_file_clean", "cases": ["good", "good/E", "good/H", "good:hex/E", "trunc", "trunc/E", "cut/E", "junk", "good:nostdout/E", "good:hex:nostdout/E"],
+     "quick_cases": ["good", "good:hex/E", "trunc/E", "cut/E", "junk", "good:nostdout/E", "good:hex:nostdout/E"], "timeout": {"quick": 90, "thorough": 300}},
 ]
 BOUNDS = {"fault step": "symbolic in 0..4 (0 = no fault; --file: 0..3, --hex: 0..5) over the output operations open, write, flush, close, print; errno symbolic in {ENOSPC, EPIPE, EIO}",
           "log": "one (case 'two': two) PEL(s) with symbolic severity class {0x00,0x40} and symbolic hidden / report flag "
@@ -126,12 +126,15 @@ def h_file_clean() -> bool:
     post: _
     """
     parts = CASE.split("/")[0].split(":")
+    nostdout = "nostdout" in parts          # the tool was started with file descriptor 1 closed: sys.stdout is None
+    parts = [x for x in parts if x != "nostdout"]
     kind, hexmode = parts[0], len(parts) > 1
     sev, flags = _sevflags()
     fault = sym_int("fault", 0, 3 if not hexmode else 4)
     o = _opts()
     w = World(files=[("one.pel", _content(kind, 0x50000001, sev, flags))], fault_at=fault, fault_kind=_kind())
     ns = Namespace(**dict(ARG_DEFAULTS, file="/pels/one.pel", hex=hexmode, **o))
+    w.no_stdout = nostdout
     try:
         status = run_main(peltool, w, ns)
     except Exception as e:
@@ -139,6 +142,9 @@ def h_file_clean() -> bool:
     ev = w.events
     conds = [status in (0, 1)]
     removed = [e for e in ev if e[0] == "remove"]
+    if nostdout:
+        # nothing can have been printed: the input stays
+        return verdict(sym_all([removed == [], not any(e[0] == "stdout" for e in ev)]), obs={"events": [x[:2] for x in ev], "status": status})
     conds.append(len(removed) <= 1)
     printed_doc = any(e[0] == "stdout" and (hasattr(e[1], "obj") or (hexmode and "PEL End" in str(e[1]))) for e in ev)
     for idx, e in enumerate(ev):
